@@ -52,14 +52,13 @@ namespace GoaktVerif.Model.C09
 /-- Consistency of the tree's bookkeeping.
 * `nodup/key_id`: `pids` is a map and every node is filed under the ID of its PID;
 * `counter`: the atomic counter equals the number of registered nodes;
-* `names_live`: every entry of the `names` index points to a live registered node carrying that name;
+* (the name index has its own invariant `NWF`, Lemmas/C09/Names.lean)
 * `wval/eval`: the PID stored under key `k` in a watchers/watchees map has ID `k`;
 * `wsym/esym`: `w ∈ watchers(a)` iff `a ∈ watchees(w)`, and both ends are registered. -/
 structure WF (t : Tree) : Prop where
   nodup : (akeys t.pids).Nodup
   key_id : ∀ k n, aget k t.pids = some n → n.pid.id = k
   counter : t.counter = (t.pids.length : Int)
-  names_live : ∀ nm p, aget nm t.names = some p → ∃ n, t.live p = some n ∧ n.pid.name = nm
   wval : ∀ a na w pw, aget a t.pids = some na → aget w na.watchers = some pw → pw.id = w
   eval : ∀ a na e pe, aget a t.pids = some na → aget e na.watchees = some pe → pe.id = e
   wsym : ∀ a na w, aget a t.pids = some na → (aget w na.watchers).isSome →
